@@ -946,6 +946,62 @@ Fixpoint constify (v : pval) : pval :=
   | _ => v
   end.
 
+(* Rdata._as_bytes(value, encode, max_length, empty_ok): the normaliser every binary field goes
+   through (str values are ASCII here, so value.encode() keeps the octets) *)
+Definition as_bytes (encode : bool) (maxlen : option Z) (empty_ok : bool) (v : pval) : res pval :=
+  let r := match v with
+           | VStr b => if encode then Some b else None
+           | VByteArray b => Some b
+           | VBytes b => Some b
+           | _ => None
+           end in
+  match r with
+  | None => Lib eValueError                                   (* "not bytes" *)
+  | Some b =>
+      if match maxlen with Some m => zlen b >? m | None => false end then Lib eValueError
+      else if negb empty_ok && (zlen b =? 0) then Lib eValueError
+      else Ok (VBytes b)
+  end.
+
+(* iter(value) *)
+Definition elements (v : pval) : option (list pval) :=
+  match v with
+  | VTuple l | VList l => Some l
+  | VBytes b | VByteArray b => Some (map VInt b)
+  | VStr b => Some (map (fun c => VStr [c]) b)
+  | VDict kv | VFrozen kv => Some (map fst kv)
+  | VInt _ | VNone | VObj _ => None
+  end.
+
+Fixpoint map_res {A B} (f : A -> res B) (l : list A) : res (list B) :=
+  match l with
+  | [] => Ok []
+  | x :: r => match f x with
+              | Ok y => match map_res f r with
+                        | Ok ys => Ok (y :: ys)
+                        | Lib e => Lib e
+                        | Internal e => Internal e
+                        end
+              | Lib e => Lib e
+              | Internal e => Internal e
+              end
+  end.
+
+(* Rdata._as_tuple(value, as_value): try (as_value(value),) except: tuple(as_value(v) for v in value) *)
+Definition as_tuple (as_value : pval -> res pval) (v : pval) : res pval :=
+  match as_value v with
+  | Ok r => Ok (VTuple [r])
+  | _ =>
+      match elements v with
+      | None => Internal eTypeError
+      | Some l => match map_res as_value l with
+                  | Ok rs => Ok (VTuple rs)
+                  | Lib e => Lib e
+                  | Internal e => Internal e
+                  end
+      end
+  end.
+
 (* ------------------------------------------------------------------------------------------ *)
 (* 6. harness interface *)
 
@@ -1235,6 +1291,17 @@ Definition run (c : obs) : obs :=
       match pval_of_obs v with
       | Some v => obs_of_pval (constify v)
       | None => E eBadCase
+      end
+  | L [I 6; v; I enc; ml; I eok; I tup] =>                   (* _as_bytes / _as_tuple(_as_bytes) *)
+      match pval_of_obs v, oz_of_obs ml with
+      | Some v, Some ml =>
+          let f := as_bytes (enc =? 1) ml (eok =? 1) in
+          match (if tup =? 1 then as_tuple f v else f v) with
+          | Ok r => obs_of_pval r
+          | Lib e => E e
+          | Internal e => E e
+          end
+      | _, _ => E eBadCase
       end
   | _ => E eBadCase
   end.
